@@ -48,7 +48,19 @@ def check_window(case):
     width = case["width"]
     alias = case["alias"]
     win = build_window(case)
+    if case.get("prior") is not None:
+        # earlier requests (another width on the same object, the same width on another window class) must not
+        # influence this one, and the array returned earlier must not be handed out again and modified
+        other = build_window({"alias": WINDOWS[case["prior"] % len(WINDOWS)]})
+        first = call("get_impulse_response (earlier request, other class)", other.get_impulse_response, width)
+        keep = None if first is None else np.array(first, copy=True)
+        call("get_impulse_response (earlier request, same object)", win.get_impulse_response, max(0, width + case["prior"] - 2))
+        same_before = call("get_impulse_response (earlier request, same object and width)", win.get_impulse_response, width)
+        if isinstance(same_before, np.ndarray) and same_before.size:
+            same_before *= 3.0  # a caller may do what it likes with the array it was given
     w = call("%s.get_impulse_response(%d)" % (type(win).__name__, width), win.get_impulse_response, width)
+    if case.get("prior") is not None and keep is not None:
+        require(np.array_equal(first, keep), "an array returned by an earlier request changed after a later request")
     require(isinstance(w, np.ndarray) and w.ndim == 1, "get_impulse_response({}) returned {} with shape {}", width,
             type(w).__name__, getattr(w, "shape", None))
     require(len(w) == width, "window of width {} has {} samples", width, len(w))
@@ -108,12 +120,13 @@ def window_cases():
     orders = st.one_of(st.integers(2, 8), st.integers(3, 8), st.integers(1, 8))
     peaks = st.one_of(floats(0.05, 0.98), floats(0.5, 0.98), st.sampled_from([0.5, 0.75, 0.9, 0.25, 0.95]))
 
-    def build(alias, width, order, peak):
+    def build(alias, width, order, peak, prior):
         if alias != "gamma":
-            return {"alias": alias, "width": width}
-        return {"alias": "gamma", "width": width, "order": order, "peak": peak}
+            return {"alias": alias, "width": width, "prior": prior}
+        return {"alias": "gamma", "width": width, "order": order, "peak": peak, "prior": prior}
 
-    return st.builds(build, st.sampled_from(WINDOWS + ["gamma", "gamma", "gamma"]), _widths(), orders, peaks)
+    return st.builds(build, st.sampled_from(WINDOWS + ["gamma", "gamma", "gamma"]), _widths(), orders, peaks,
+                     st.one_of(st.none(), st.none(), st.integers(0, 4)))
 
 
 def window_enum(tier):
